@@ -163,7 +163,15 @@ func c18One(c *Ctx, idx int, local map[string]int64) {
 			return
 		}
 		wantMin, wantMax := time.Unix(0, w.s), time.Unix(0, w.e-1)
-		if !tr.MinTime().Equal(wantMin) || !tr.MaxTime().Equal(wantMax) {
+		// a non-time part that folds to `false` folds the whole condition to
+		// `false`: no point is selected, which is what the property asks for;
+		// there is no window left to look at, only the points below
+		constFalse := false
+		if b, ok := resid.(*influxql.BooleanLiteral); ok && !b.Val {
+			constFalse = true
+			local["condition-folded-to-false"]++
+		}
+		if !constFalse && (!tr.MinTime().Equal(wantMin) || !tr.MaxTime().Equal(wantMax)) {
 			if known() {
 				return
 			}
@@ -171,7 +179,7 @@ func c18One(c *Ctx, idx int, local map[string]int64) {
 			return
 		}
 		nodes, tl := countNodes(sel.Condition)
-		if tl != 2 {
+		if tl != 2 && !constFalse {
 			if known() {
 				return
 			}
